@@ -69,6 +69,25 @@ def judge(path, prop="C01"):
                         if not same:
                             out["viol"].append(("tokens-differ:%s" % case[1], "OpenSSL and GnuTLS produced different tokens for a deterministic algorithm",
                                                 dict(idx=idx, key=case[0], alg=case[1])))
+            elif ev[0] == "MP":
+                idx, cls, variant, refvalid, rp0, rp1, ra0, ra1 = ev[1:9]
+                case = out["cases"].get(idx, ["?", "?", 0, 0])
+                tok = ev[9] if len(ev) > 9 else None
+                unsupported = "secp256k1" in case[0]
+                cnt("private_key_checker_events")
+                for pi, rp, ra in ((0, rp0, ra0), (1, rp1, ra1)):
+                    prov = PROVS[pi]
+                    wit = dict(idx=idx, key=case[0], alg=case[1], mutation=CLASSES[cls], variant=variant, provider=prov, rc_private_key_checker=rp,
+                               rc_public_key_checker_afterwards=ra, ref_valid=refvalid, token=tok)
+                    if rp == 0 and not refvalid and prop == "C01":
+                        # same key as for the public-key checker: the key form is not part of what fails (see the witness)
+                        out["viol"].append((viol_key(prov, case, cls, variant),
+                                            "a checker holding the private form of the key accepted a token whose third segment is not a valid signature", wit))
+                    if cls == 0 and refvalid and (rp != 0 or ra != 0) and not (pi == 1 and unsupported):
+                        cnt("base_rejected")
+                        if prop == "C12":
+                            out["viol"].append(("rejects-valid:%s:%s:%s" % (prov, case[1], "private-key-checker" if rp != 0 else "public-key-checker-after-private-key-verify"),
+                                                "a valid token was rejected by the %s" % ("checker holding the private JWK" if rp != 0 else "public-key checker right after a verification with the private JWK"), wit))
             elif ev[0] == "M":
                 idx, cls, variant, refvalid, rc0, rc1 = ev[1:7]
                 case = out["cases"].get(idx, ["?", "?", 0, 0])
